@@ -752,6 +752,16 @@ func genRolloutWorld(c *Ctx) rsWorld {
 		}
 		br = b
 	}
+	if c.Rng.Intn(20) == 0 && ro.Sub != nil {
+		// focused stream: the Rollout is deleted (or disabled) right after its last step was confirmed — the sub-state says
+		// Completed but the clean-up has not started yet (cursor still empty): everything the rollout created is still there
+		ro.Deleting, ro.Paused = true, false
+		ro.Phase, ro.Reason, ro.Term = pickS(c, "Terminating", "Terminating", "Progressing"), "none", "inTerminating"
+		if ro.Phase == "Progressing" {
+			ro.Reason, ro.Term = "inRolling", "none"
+		}
+		ro.Sub.State, ro.Sub.FinStep, ro.Sub.CurIdx, ro.Sub.NextIdx, ro.Sub.Hash = pickS(c, "completed", "completed", "ready"), pickS(c, "empty", "empty", "end_"), nsteps, -1, "same"
+	}
 	if c.Rng.Intn(14) == 0 && ro.Sub != nil && wl != nil && nsteps >= 2 {
 		// focused stream: the plan was edited while a step is in progress; the BatchRelease still carries the OLD plan, its
 		// partition is ahead of the batch it has reached (the Rollout raised it, the BatchRelease has not reconciled yet)
